@@ -42,6 +42,53 @@ func runC19(c *Ctx) {
 	// classifyLicense, its closures and the unexported helpers of the package it is split into
 	clFns := pkgClosure(cl, backendPkg)
 
+	// ---- R19.9 the walk over the arguments: SkipDir is returned for directories only --------
+	// filepath.Walk skips the rest of the *containing* directory when its callback returns SkipDir for a file: every
+	// return of SkipDir in the tool's walk callbacks is therefore behind a true info.IsDir().
+	{
+		toolPkg := strings.TrimSuffix(backendPkg, "/backend")
+		nSkip, nCb := 0, 0
+		for _, fn := range p.SrcFuncs(toolPkg) {
+			if core.FuncPkgPath(fn) != toolPkg {
+				continue
+			}
+			for _, f := range core.WithAnon(fn) {
+				isCb := false
+				for _, b := range f.Blocks {
+					ret, ok := b.Instrs[len(b.Instrs)-1].(*ssa.Return)
+					if !ok || len(ret.Results) != 1 {
+						continue
+					}
+					ld, ok := ret.Results[0].(*ssa.UnOp)
+					if !ok || ld.Op != token.MUL {
+						continue
+					}
+					g, ok := ld.X.(*ssa.Global)
+					if !ok || g.Name() != "SkipDir" {
+						continue
+					}
+					isCb = true
+					nSkip++
+					isDir := false
+					for _, ft := range core.FactsAt(b) {
+						if call, ok := ft.Cond.(*ssa.Call); ok && ft.Truth && call.Call.IsInvoke() && call.Call.Method.Name() == "IsDir" {
+							isDir = true
+						}
+					}
+					c.R.Check(isDir, "R19.9", core.ShortFn(f)+": SkipDir is returned only for a directory", p.Pos(ret.Pos()), "behind info.IsDir()",
+						"SkipDir can be returned for a file (an ignored file): filepath.Walk then skips the rest of the directory the file lies in, and its later siblings are never classified")
+				}
+				if isCb {
+					nCb++
+				}
+			}
+		}
+		c.R.Count("R19.9:returns of SkipDir in the walk callbacks", nSkip)
+		if nSkip == 0 {
+			c.R.OK("R19.9", "the walk callbacks never return SkipDir", toolPkg, "nothing to guard")
+		}
+	}
+
 	// ---- R19.1 field agreement ---------------------------------------------------
 	n1 := 0
 	var lts []structLit
